@@ -923,6 +923,71 @@ def rule_r18(repo, run, T):
     run.floor(R, "code blocks that grow after the argument loop", n, 1)
 
 
+def rule_r19(repo, run, T):
+    R = run.rule("C03.R19", "the init function of the library module and the one of a namespace submodule write the same kinds of "
+                            "collected code (type objects, enumerations, array descriptors), and a list that is collected on the "
+                            "wrapper itself (not in the per-module record) is started afresh for every module: the enumerators of "
+                            "namespace `outer` become x.outer.RED, not x.RED")
+    wp = repo.module("wrapp")
+    top, sub = wp.func("Wrapp.write_init_module"), wp.func("Wrapp.write_init_submodule")
+
+    def sources(fn):
+        out = {}
+        for c in ast.walk(fn):
+            if isinstance(c, ast.Call) and isinstance(c.func, ast.Attribute) and c.func.attr == "extend" and \
+                    pyflow.is_name(c.func.value, "output") and c.args and isinstance(c.args[0], ast.Attribute):
+                out[ast.unparse(c.args[0])] = c
+        return out
+    a, b = sources(top), sources(sub)
+    if len(a) < 3:
+        raise AnalysisError("C03.R19: collected code written by write_init_module not found (%s)" % sorted(a))
+    for src in sorted(a):
+        run.check(R, "wrapp.Wrapp.write_init_submodule:%s" % src, src in b,
+                  "write_init_module writes %s into the init function, write_init_submodule does not: what a namespace "
+                  "collects there ends up in the library module (or nowhere)" % src, wp.loc(sub))
+    # lists kept on the wrapper
+    wn = wp.func("Wrapp.wrap_namespace")
+    for src in sorted(a):
+        if not src.startswith("self."):
+            continue
+        attr = src.split(".", 1)[1]
+        resets = [x for x in ast.walk(wn) if isinstance(x, ast.Assign) and ast.unparse(x.targets[0]) == src
+                  and isinstance(x.value, ast.List) and not x.value.elts]
+        calls = [c for c in ast.walk(wn) if isinstance(c, ast.Call) and (pyflow.call_name(c) or "") == "self.wrap_namespace"]
+        first_write = [c for c in ast.walk(wn) if isinstance(c, ast.Call) and (pyflow.call_name(c) or "") in ("self.wrap_enums", "self.write_module")]
+        ok = bool(resets) and (not calls or min(r.lineno for r in resets) < min(c.lineno for c in calls)) and \
+            (not first_write or min(r.lineno for r in resets) < min(c.lineno for c in first_write))
+        restored = any(isinstance(x, ast.Assign) and ast.unparse(x.targets[0]) == src and isinstance(x.value, ast.Name)
+                       for x in ast.walk(wn))
+        run.check(R, "wrapp.Wrapp.wrap_namespace:%s:per-module" % src, ok and restored,
+                  "%s is collected on the wrapper, wrap_namespace is entered once per module (recursively, the children first) and "
+                  "%s: the code collected for a namespace is written by whichever module is written last"
+                  % (src, "never starts the list afresh" if not resets else "does not put the outer module's list back"), wp.loc(wn))
+
+
+# pairs that are known to be missing (recorded in known_findings.json, reported as KNOWN-FINDING)
+def rule_r20(repo, run, T):
+    R = run.rule("C03.R20", "PY_array_arg selects between two tables of statements for native pointers: every `..._numpy` entry has "
+                            "its `..._list` twin and the other way round - a missing twin is not an error in the generator, the "
+                            "lookup falls back to the scalar statements and the wrapper returns the first element only")
+    wp = repo.module("wrapp")
+    names = set()
+    for key, val in pyflow.table_fields(wp.tree):
+        if key == "name" and pyflow.const_str(val) and pyflow.const_str(val).startswith("py_native_"):
+            names.add(pyflow.const_str(val))
+    lists = set(n[:-5] for n in names if n.endswith("_list"))
+    numpys = set(n[:-6] for n in names if n.endswith("_numpy"))
+    if len(lists) < 6 or len(numpys) < 6:
+        raise AnalysisError("C03.R20: py_native_* statement names not found (%d list, %d numpy)" % (len(lists), len(numpys)))
+    for stem in sorted(lists | numpys):
+        missing = "list" if stem not in lists else ("numpy" if stem not in numpys else None)
+        run.check(R, "py_statements[%s]:list/numpy" % stem, missing is None,
+                  "`%s_%s` exists and `%s_%s` does not: with PY_array_arg: %s the lookup ends at the scalar statements of "
+                  "`%s` and only the first element crosses the boundary"
+                  % (stem, "numpy" if missing == "list" else "list", stem, missing, missing, stem.rsplit("_", 1)[0]), wp.loc(wp.tree.body[0]))
+
+
+
 def run(repo, run, tier):
     tables.check_model_assumptions(repo)
     T = dict(py=tables.StatementTable(repo, "wrapp", "py_statements"),
@@ -946,4 +1011,6 @@ def run(repo, run, tier):
     rule_r16(repo, run, T)
     rule_r17(repo, run, T)
     rule_r18(repo, run, T)
+    rule_r19(repo, run, T)
+    rule_r20(repo, run, T)
     run.assumptions.append("LP64 sizes; CPython PyArg_Parse / Py_BuildValue unit table in the checker")
